@@ -44,17 +44,23 @@ type Txn struct {
 	URL     string   `json:"url"`
 	Headers []string `json:"headers"` // header names carried with value "1"
 	// filled by the engine run
-	SelReq   Selection `json:"selected_for_request"`
-	SelRes   Selection `json:"selected_for_response"`
-	Events   []Event   `json:"events"`
-	Result   string    `json:"result"` // none | answered | error
-	ErrText  string    `json:"error,omitempty"`
-	NActions int       `json:"actions"`
+	SelReq Selection `json:"selected_for_request"`
+	SelRes Selection `json:"selected_for_response"`
+	Events []Event   `json:"events"`
+	// Early[i]: the early response the processor of Events[i] appended to the
+	// actions while it ran ("" = none), as "<status> <body>": its content says
+	// which processor INSTANCE ran (config.go genBody)
+	Early    []string `json:"early_response_of_event"`
+	Result   string   `json:"result"` // none | answered | error
+	ErrText  string   `json:"error,omitempty"`
+	NActions int      `json:"actions"`
 }
 
 var (
 	evMu    sync.Mutex
 	evSink  *[]Event
+	evActs  *[]int     // number of actions already appended when the event fired
+	curActs func() int // reads that number off the action list of the running transaction
 	cfgSeq  int
 	shared  = lunar_context.NewMemoryState[[]byte]()
 	txnSeq  int
@@ -95,6 +101,9 @@ func setupEnv() {
 					d = "req"
 				}
 				*evSink = append(*evSink, Event{args[0], args[1], d, args[3]})
+				if evActs != nil && curActs != nil {
+					*evActs = append(*evActs, curActs())
+				}
 			}
 		})
 	})
@@ -155,6 +164,27 @@ func sel(st *streams.Stream, api publictypes.APIStreamI, t publictypes.StreamTyp
 	return Selection{true, s, u, e}
 }
 
+// earlyPerEvent: per event the early response ("<status> <body>", "" = none) among
+// the request actions appended between that event and the next one.
+func earlyPerEvent(n int, at []int, acts *stream_config.StreamActions) []string {
+	out := make([]string, n)
+	if acts.Request == nil {
+		return out
+	}
+	for i := 0; i < n && i < len(at); i++ {
+		hi := len(acts.Request.Actions)
+		if i+1 < len(at) {
+			hi = at[i+1]
+		}
+		for j := at[i]; j < hi && j < len(acts.Request.Actions); j++ {
+			if a, ok := acts.Request.Actions[j].(*actions.EarlyResponseAction); ok && out[i] == "" {
+				out[i] = fmt.Sprintf("%d %s", a.Status, a.Body)
+			}
+		}
+	}
+	return out
+}
+
 // Run executes one transaction the way routing/messages_handler.go does.
 func Run(st *streams.Stream, t *Txn) {
 	txnSeq++
@@ -182,17 +212,35 @@ func Run(st *streams.Stream, t *Txn) {
 		t.SelReq = sel(st, api, publictypes.StreamTypeRequest)
 	}
 	t.SelRes = sel(st, api, publictypes.StreamTypeResponse)
+	// the hook fires after a processor ran and before its action is appended: the
+	// actions appended between two events belong to the first of them
+	var at []int
 	evMu.Lock()
-	evSink = &events
+	evSink, evActs = &events, &at
+	curActs = func() int {
+		if acts.Request != nil {
+			return len(acts.Request.Actions)
+		}
+		return 0
+	}
 	evMu.Unlock()
-	err := st.ExecuteFlow(api, acts)
+	var err error
+	func() {
+		defer func() {
+			if r := recover(); r != nil {
+				err = fmt.Errorf("panic: %v", r)
+			}
+		}()
+		err = st.ExecuteFlow(api, acts)
+	}()
 	evMu.Lock()
-	evSink = nil
+	evSink, evActs, curActs = nil, nil, nil
 	evMu.Unlock()
 	if events == nil {
 		events = []Event{}
 	}
 	t.Events = events
+	t.Early = earlyPerEvent(len(events), at, acts)
 	t.Result = "none"
 	t.ErrText = ""
 	if err != nil {
